@@ -98,7 +98,7 @@ pub fn gen_leaf(rng: &mut Rng, rich: bool) -> V {
 /// A random tree: `width` names per directory drawn from 0..names, nesting up to `depth`.
 pub fn gen_tree(rng: &mut Rng, depth: u32, names: u8, rich: bool) -> T {
     let mut t = T::new();
-    let n = rng.below(names as u64 + 1);
+    let n = if rng.chance(1, 8) { 0 } else { 1 + rng.below(names as u64 + 1) };
     for _ in 0..n {
         let name = rng.below(names as u64) as u8;
         let v = if depth > 0 && rng.chance(1, 3) {
